@@ -91,6 +91,10 @@ def check_parser(P, R):
             R.ob('C17.b', f, c, ok, detail='' if ok else 'indexing of split() outside try/except IndexError', key_extra='index')
     # clipping arithmetic of the three forms
     forms = {'suffix': False, 'open': False, 'closed': False}
+    unp = [st for st in walk_shallow(f.node) if isinstance(st, ast.Assign) and isinstance(st.targets[0], ast.Tuple) and len(st.targets[0].elts) == 2
+           and isinstance(st.value, ast.Call) and call_attr(st.value) == 'split']
+    R.require(unp, 'get_first_range: `start, end = <range>.split("-")` not found')
+    sname, ename = [e.id for e in unp[0].targets[0].elts]
     for st in walk_shallow(f.node):
         if isinstance(st, ast.Assign) and isinstance(st.value, ast.Tuple) and len(st.value.elts) == 2:
             a, b = st.value.elts
@@ -98,12 +102,12 @@ def check_parser(P, R):
             if isinstance(a, ast.Call) and dotted(a.func) == 'max' and sb == maxlen:
                 # max(0, maxlen - int(end))
                 inner = [src(x) for x in a.args]
-                forms['suffix'] = '0' in inner and any(s.replace(' ', '') == f'{maxlen}-int(end)' for s in inner)
+                forms['suffix'] = '0' in inner and any(s.replace(' ', '') == f'{maxlen}-int({ename})' for s in inner)
             elif isinstance(a, ast.Call) and dotted(a.func) == 'int' and sb == maxlen:
                 forms['open'] = True
             elif isinstance(a, ast.Call) and dotted(a.func) == 'int' and isinstance(b, ast.Call) and dotted(b.func) == 'min':
                 inner = [src(x).replace(' ', '') for x in b.args]
-                forms['closed'] = maxlen in inner and 'int(end)+1' in inner
+                forms['closed'] = maxlen in inner and f'int({ename})+1' in inner
     for k, v in forms.items():
         R.ob('C17.b', f, f.node, v, text=f'{k} range form clipped to the file', detail='' if v else
              {'suffix': 'suffix form must be (max(0, maxlen - int(end)), maxlen)',
